@@ -377,7 +377,7 @@ func (r *Run) runHarness(prog *ssa.Program, h HarnessCfg) *HResult {
 	} else if r.tier == "quick" {
 		cfg.MaxWall = 600 * time.Second
 	} else {
-		cfg.MaxWall = 45 * time.Minute
+		cfg.MaxWall = 15 * time.Minute
 	}
 	eng := sym.NewEngine(prog, solver, cfg)
 	eng.Params = params
